@@ -45,6 +45,7 @@ type part struct {
 	Tags    string   // extra build tags
 	Env     []string // extra env
 	OnlyT   bool     // part runs in the thorough tier only
+	NoSubst string            // passed to the instrumenter as -nosubst
 	ModRepl map[string]string // module-cache file (relative to GOMODCACHE) -> file under /verif to put in its place through the overlay
 }
 
@@ -484,7 +485,11 @@ func makeOverlay(work string, idx int, p part) (string, error) {
 	}
 	if len(p.Weave) > 0 {
 		wdir := filepath.Join(work, fmt.Sprintf("weave%d", idx))
-		a := append([]string{"-out", wdir}, p.Weave...)
+		a := []string{"-out", wdir}
+		if p.NoSubst != "" {
+			a = append(a, "-nosubst", p.NoSubst)
+		}
+		a = append(a, p.Weave...)
 		cmd := exec.Command(filepath.Join(verif, "bin", "instr"), a...)
 		cmd.Dir = repo
 		cmd.Env = goEnv()
